@@ -15,6 +15,9 @@ def main(tier, seed, replay):
         k.model_check("MC_Map", mc_consts(kinds=ops, ops=3, ticks=3, idle=1, pre=("p1",)), inv)
         k.must_find("MC_Map_seed", mc_consts(impl="ImplNoMap", kinds=("spawn", "prespawn", "mappre"), ops=3, ticks=2, idle=1, pre=("p1",)), ["Inv_C16"])
         tr = k.validate_profile("prespawn", 250, extra_monitors=("C03", "C01"), extra_fields=("net", "cli", "srv.cl"))
+        # mappings together with relations and visibility (known findings F24, F17 are not avoided here)
+        k.must_find("MC_Map_F24", mc_consts(impl="ImplF24", ents=("e1", "e2"), policy="black", comps=("A",), kinds=("spawn", "relate", "setvis", "prespawn", "mappre"), pre=("p1",), ops=7, ticks=2, idle=0, cframes=1), ["Inv_C02", "Inv_C16", "Inv_C01"])
+        k.validate_profile("pre_rel", 60, extra_monitors=("C03", "C01", "C02"), extra_fields=("net", "cli", "srv.cl"), known=("F24", "F17"))
         k.replay_behaviours("EXH_Map", mc_consts(kinds=ops, ops=4, ticks=2, idle=1, cframes=0, pre=("p1",)), 0, invariants=inv, extra_monitors=("C03", "C01"), extra_fields=("net", "cli", "srv.cl"))
         k.replay_behaviours("TLC_walks_pre", mc_consts(kinds=("spawn", "despawn", "mutate", "prespawn", "killpre", "mappre"), pre=("p1", "p2"), ents=("e1", "e2"), clients=("c1", "c2"), ops=8, ticks=6, idle=3, cframes=8), 150, depth=80, extra_monitors=("C03", "C01"), extra_fields=("net", "cli", "srv.cl"))
     else:
@@ -23,6 +26,8 @@ def main(tier, seed, replay):
         k.model_check("MC_MapE2", mc_consts(ents=("e1", "e2"), kinds=("spawn", "prespawn", "mappre", "insert"), ops=4, ticks=2, idle=1, pre=("p1", "p2")), inv, timeout=3000)
         k.must_find("MC_Map_seed", mc_consts(impl="ImplNoMap", kinds=("spawn", "prespawn", "mappre"), ops=3, ticks=2, idle=1, pre=("p1",)), ["Inv_C16"])
         tr = k.validate_profile("prespawn", 4000, extra_monitors=("C03", "C01"), extra_fields=("net", "cli", "srv.cl"))
+        k.must_find("MC_Map_F24", mc_consts(impl="ImplF24", ents=("e1", "e2"), policy="black", comps=("A",), kinds=("spawn", "relate", "setvis", "prespawn", "mappre"), pre=("p1",), ops=7, ticks=2, idle=0, cframes=1), ["Inv_C02", "Inv_C16", "Inv_C01"])
+        k.validate_profile("pre_rel", 1500, extra_monitors=("C03", "C01", "C02"), extra_fields=("net", "cli", "srv.cl"), known=("F24", "F17"))
         k.replay_behaviours("EXH_Map", mc_consts(kinds=ops, ops=5, ticks=2, idle=1, cframes=0, pre=("p1",)), 0, invariants=inv, extra_monitors=("C03", "C01"), extra_fields=("net", "cli", "srv.cl"), timeout=3000)
         k.replay_behaviours("EXH_Map2", mc_consts(kinds=ops, clients=("c1", "c2"), ops=4, ticks=2, idle=1, cframes=0, pre=("p1",)), 0, invariants=inv, extra_monitors=("C03", "C01"), extra_fields=("net", "cli", "srv.cl"), timeout=3000)
         k.replay_behaviours("TLC_walks_pre", mc_consts(kinds=("spawn", "despawn", "mutate", "prespawn", "killpre", "mappre"), pre=("p1", "p2"), ents=("e1", "e2"), clients=("c1", "c2"), ops=8, ticks=6, idle=3, cframes=8), 2000, depth=80, extra_monitors=("C03", "C01"), extra_fields=("net", "cli", "srv.cl"))
